@@ -79,10 +79,10 @@ DelayEnter == delay < MaxDelay /\ delay' = delay + 1 /\ act' = A("DelayEnter", "
 DelayExit == delay > 0 /\ delay' = delay - 1 /\ act' = A("DelayExit", "-", 0) /\ UNCHANGED <<coll, groups, ngrp, alone, layers, nlay>> /\ U1
 
 (* ---- part 2 ---- *)
-Kinds == {"num", "cat", "derived"}
-Enabled(k) == CASE k = "num" -> filt.numeric [] k = "cat" -> filt.categorical [] k = "derived" -> filt.numeric /\ filt.derived
+Kinds == {"num", "cat", "time", "derived"}
+Enabled(k) == CASE k = "num" -> filt.numeric [] k = "cat" -> filt.categorical [] k = "time" -> filt.datetime [] k = "derived" -> filt.numeric /\ filt.derived
 ChoicesOf(d) ==
-    SelectSeq(attrs[d], LAMBDA a : a.k \in {"num", "cat"} /\ Enabled(a.k)) \o
+    SelectSeq(attrs[d], LAMBDA a : a.k \in {"num", "cat", "time"} /\ Enabled(a.k)) \o
     SelectSeq(attrs[d], LAMBDA a : a.k = "derived" /\ Enabled("derived"))
 RECURSIVE Cat(_)
 Cat(ds) == IF ds = <<>> THEN <<>> ELSE [i \in 1..Len(ChoicesOf(Head(ds))) |-> [d |-> Head(ds), n |-> ChoicesOf(Head(ds))[i].n]] \o Cat(Tail(ds))
@@ -112,7 +112,7 @@ Init ==
     /\ coll = {} /\ groups = {} /\ ngrp = 0 /\ alone = {} /\ layers = {} /\ delay = 0 /\ nlay = 0
     /\ attrs = [d \in Data |-> <<[n |-> "a", k |-> "num"]>>]
     /\ pdata = <<>>
-    /\ filt = [numeric |-> TRUE, categorical |-> TRUE, derived |-> TRUE]
+    /\ filt = [numeric |-> TRUE, categorical |-> TRUE, derived |-> TRUE, datetime |-> TRUE]
     /\ sel = NoSel
     /\ act = A("Init", "-", 0)
 
